@@ -447,7 +447,15 @@ def rule_result_source(ctx):
         ctx.ok(site(fn, 0), "every returned value comes from the substring scanners / the exact matcher / a trivial verdict (%d paths)" % len(paths))
 
 
+def rule_char_eq_exact(ctx):
+    """The occurrences of the needle rest on `haystack_char == needle_char` being exact code point equality for every pair of character
+    types (shared with C01.char-eq-exact)."""
+    from props.c01 import rule_char_eq_exact as r
+    r(ctx)
+
+
 def rules(ctx):
+    ctx.run_rule("C05.char-eq-exact", rule_char_eq_exact)
     ctx.run_rule("C05.result-source", rule_result_source)
     ctx.run_rule("C05.window", rule_window)
     ctx.run_rule("C05.best-bonus", rule_best_bonus)
